@@ -79,6 +79,8 @@ pub struct Compiler
 	analyzer: analyzer::Analyzer,
 	linter: linter::Linter,
 	generator: generator::Generator,
+	/// The functions that the modules so far define for other modules.
+	exported_functions: std::collections::HashMap<String, common::Location>,
 }
 
 #[cfg(feature = "alpha")]
@@ -109,6 +111,42 @@ impl Compiler
 		mut declarations: Vec<common::Declaration>,
 	) -> Result<Result<Vec<resolved::Declaration>, error::Errors>, anyhow::Error>
 	{
+		// Two modules cannot both define a function of the same name for the
+		// program as a whole; the linker would refuse to combine them.
+		for declaration in declarations.iter_mut()
+		{
+			let duplicate = match declaration
+			{
+				common::Declaration::Function { name, flags, .. }
+					if flags.contains(common::DeclarationFlag::Public)
+						|| flags.contains(common::DeclarationFlag::Main) =>
+				{
+					match self.exported_functions.get(&name.name)
+					{
+						Some(previous) =>
+						{
+							Some(error::Error::DuplicateDeclarationFunction {
+								name: name.name.clone(),
+								location: name.location.clone(),
+								previous: previous.clone(),
+							})
+						}
+						None =>
+						{
+							self.exported_functions
+								.insert(name.name.clone(), name.location.clone());
+							None
+						}
+					}
+				}
+				_ => None,
+			};
+			if let Some(error) = duplicate
+			{
+				*declaration = common::Declaration::Poison(error.into());
+			}
+		}
+
 		// Sort the declarations so that the functions are at the end and
 		// the constants and structures are declared in the right order.
 		declarations.sort_by_key(|x| scoper::get_container_depth(x, u32::MAX));
